@@ -88,6 +88,19 @@ def check_dispatch(ctx, oid="C08.1"):
         R.check(oid, "DECISION-TABLE", fi, "valid segwit address, program length %d, versions %s -> OP_v push(program)" % (L, "0..16" if ctx.thorough else "0,1,2,15,16"), not bad,
                 "a valid version-%s %s address with a %d-byte program maps to %s %s" % ((bad[0][0], bad[0][1].decode(), L, bad[0][2], tm.show(bad[0][3])[:120]) if bad else ("", "", L, "", "")),
                 example="a valid version-1..16 address with a %d-byte program" % L)
+    # checksum-valid Bech32 strings that are NOT segwit addresses (the decoder returns a triple, the classifier says no): refused
+    notseg = []
+    for wv, L in ((0, 16), (0, 2), (0, 33), (1, 1), (1, 41), (16, 1), (2, 45)):
+        prog = tm.sized("program", L)
+        ev.assumptions = {isp: False, isb: False, iss: False, iss2: False}
+        ev.bind = {seg: (b"bc", wv, prog), tm.app("bits.utils.decode_segwit_addr", [data], ty=tm.TUPLE): (b"bc", wv, prog)}
+        kind, val = rules.strict_outcome(ev.run(fi))
+        if kind != "raise":
+            notseg.append((wv, L, kind, val))
+    ev.bind = {}
+    R.check(oid, "DECISION-TABLE", fi, "checksum-valid Bech32 strings with an invalid witness program (v0 of 16 / 2 / 33 bytes, 1-byte and 41-byte programs) -> error", not notseg,
+            "a version-%s string with a %s-byte program (not a valid segwit address) maps to %s %s" % ((notseg[0][0], notseg[0][1], notseg[0][2], tm.show(notseg[0][3])[:100]) if notseg else ("", "", "", "")),
+            example="BC1QR508D6QEJXTDG4Y5R3ZARVARYV98GJ9P (BIP173 invalid vector: v0 with a 16-byte program)")
     refusal = T("raise", ("AssertionError",))  # the decoder refuses what is not a segwit address
     ev.bind = {seg: refusal, tm.app("bits.utils.decode_segwit_addr", [data], ty=tm.TUPLE): refusal}
     ev.assumptions = {isp: False, isb: False, iss: False, iss2: False}
@@ -97,12 +110,10 @@ def check_dispatch(ctx, oid="C08.1"):
     ev.assumptions = {}
 
 
-def run(ctx):
+def check_to_address(ctx, oid="C08.2"):
+    """to_bitcoin_address: Base58Check version byte per (network, type); witness addresses go through segwit_addr with the
+    caller's network and version unchanged (shared with C06: the round trip must return the same network prefix)."""
     R = ctx.R
-    check_dispatch(ctx)
-    c13.check_builders(ctx, "C08.3", only={"p2pk_script_pubkey", "p2pkh_script_pubkey", "p2sh_script_pubkey", "p2wpkh_script_pubkey", "p2wsh_script_pubkey"})
-
-    # ---- encoder version table
     fa = ctx.fn("bits.utils.to_bitcoin_address")
     eva = ctx.evaluator(opaque={"bits.base58.base58check", "bits.utils.segwit_addr"})
     pl = P("payload", tm.BYTES)
@@ -112,23 +123,36 @@ def run(ctx):
     for (net, ty), ver in sorted(spec.items()):
         kind, val = rules.outcome(eva.run(fa, {"network": net, "addr_type": ty, "witness_version": None}))
         want = tm.app("bits.base58.base58check", [tm.cat([ver, pl])], ty=tm.BYTES)
-        R.check("C08.2", "TABLE", fa, "address version byte for (%s, %s)" % (net, ty), kind == "return" and tm.veq(val, want) and kind_of[ver] == ty,
+        R.check(oid, "TABLE", fa, "address version byte for (%s, %s)" % (net, ty), kind == "return" and tm.veq(val, want) and kind_of[ver] == ty,
                 "to_bitcoin_address(%s, %s) = %s" % (net, ty, tm.show(val)[:120]))
     for net in ("mainnet", "testnet", "regtest"):
         for v in (0, 1, 16):
             kind, val = rules.outcome(eva.run(fa, {"network": net, "witness_version": v}))
             want = tm.app("bits.utils.segwit_addr", [pl, v, net], ty=tm.BYTES)
-            R.check("C08.2", "TABLE", fa, "witness address (%s, v%d) through segwit_addr" % (net, v), kind == "return" and tm.veq(val, want),
+            R.check(oid, "TABLE", fa, "witness address (%s, v%d) through segwit_addr" % (net, v), kind == "return" and tm.veq(val, want),
                     "to_bitcoin_address(witness_version=%d, %s) = %s" % (v, net, tm.show(val)[:120]))
     kind, val = rules.outcome(eva.run(fa, {"network": "mainnet", "addr_type": "p2wpkh", "witness_version": None}))
-    R.check("C08.2", "TABLE", fa, "unknown address type refused", kind == "raise", "unknown addr_type maps to %s" % tm.show(val)[:80])
+    R.check(oid, "TABLE", fa, "unknown address type refused", kind == "raise", "unknown addr_type maps to %s" % tm.show(val)[:80])
     kind, val = rules.outcome(eva.run(fa, {"network": "signet", "addr_type": "p2pkh", "witness_version": None}))
-    R.check("C08.2", "TABLE", fa, "unknown network refused", kind == "raise", "unknown network maps to %s" % tm.show(val)[:80])
+    R.check(oid, "TABLE", fa, "unknown network refused", kind == "raise", "unknown network maps to %s" % tm.show(val)[:80])
+
+
+def run(ctx):
+    # no hidden state: what this property is about keeps nothing at module level between calls (memo tables keyed by less than
+    # the value depends on, caches of the outside world, counters) -- a verdict on one call must hold for every later call
+    from .. import rules as _rules
+    _rules.check_hidden_state(ctx, 'C08.7', ['bits.script.utils.scriptpubkey'])
+    R = ctx.R
+    check_dispatch(ctx)
+    c13.check_builders(ctx, "C08.3", only={"p2pk_script_pubkey", "p2pkh_script_pubkey", "p2sh_script_pubkey", "p2wpkh_script_pubkey", "p2wsh_script_pubkey"})
+
+    check_to_address(ctx)
     # ---- malformed public keys
     c14.check_point_decoder(ctx, "C08.4")
     # ---- the segwit encoder / validity tables the witness addresses go through (shared with C06)
     c06.check_encoder(ctx, "C08.5")
     c06.check_valid_segwit(ctx, "C08.5")
+    c06.check_totality(ctx, "C08.5")  # is_segwit_addr is the dispatcher's classifier: it must answer for every string, and True for every valid address
     # invalid segwit addresses must be refused before they become scripts: the decoder's accept set (shared with C06)
     c06.check_parse_and_validate(ctx, "C08.5")
     c06.check_decode_segwit(ctx, "C08.5")
